@@ -30,7 +30,7 @@ RULE = ("exhaustive products of finite menus of free encoding choices x small ab
         "outside what the format descriptions promise or the library documents) are counted by outcome under tri/..., never alarmed.")
 DEADLINE = {"quick": 200, "thorough": 1100}
 # part, shards, weight of the part in the time budget (quick, thorough); time a part does not use goes to the following ones
-PARTS = [("tiny", 1, (1, 1)), ("agree", 2, (1, 1)), ("o5m", 16, (6, 3)), ("xml", 16, (6, 10)), ("opl", 16, (6, 12)), ("pbf", 16, (6, 40))]
+PARTS = [("tiny", 1, (1, 1)), ("agree", 2, (1, 1)), ("o5m", 16, (6, 8)), ("xml", 16, (6, 20)), ("opl", 16, (6, 12)), ("pbf", 16, (6, 40))]
 
 
 def build(ctx):
